@@ -272,10 +272,13 @@ static uint64_t canon_bits(double d) { uint64_t u; if (d != d) return 0x7ff80000
  * column of the first data set (counts), and the last second-column value of the first data set */
 static void plot_table(int surv) {
   FILE *fp = tmpfile(); char line[256]; int set = 0, rows[2] = {0, 0}, nsets = 0; double sum = 0., last = 0., a, b; int st;
+  uint64_t th = 0xcbf29ce484222325ULL; int tfinite = 1;     /* FNV-1a of the TEXT of the first data set (rows, trailing row, "&" line) */
   if (!fp) { h_out("esys"); return; }
   st = surv == 2 ? esl_histogram_PlotQQ(fp, H, h_identity, NULL) : surv ? esl_histogram_PlotSurvival(fp, H) : esl_histogram_Plot(fp, H);
   rewind(fp);
   while (fgets(line, sizeof(line), fp)) {
+    if (set == 0) { const unsigned char *q; for (q = (const unsigned char *) line; *q; q++) th = (th ^ *q) * 0x100000001b3ULL;
+                    if (strstr(line, "nan") || strstr(line, "inf")) tfinite = 0; }
     if (line[0] == '&') { set++; nsets++; continue; }
     if (set < 2 && sscanf(line, "%lf %lf", &a, &b) == 2) { rows[set]++; if (set == 0) { sum += b; last = b; } }
   }
@@ -287,7 +290,8 @@ static void plot_table(int surv) {
   } else if (surv) {
     if (H->Nc > 0 && H->Nc <= 10000) h_out("ok sets=%d rows1=%d rows2=%d cum=%ld", nsets, rows[0], rows[1], lround(last * (double) H->Nc));
     else h_out("ok sets=%d rows1=%d rows2=%d cum=-", nsets, rows[0], rows[1]);
-  } else h_out("ok sets=%d rows1=%d rows2=%d sum=%.0f", nsets, rows[0], rows[1], sum);
+  } else if (tfinite) h_out("ok sets=%d rows1=%d rows2=%d sum=%.0f txt=%016" PRIx64, nsets, rows[0], rows[1], sum, th);
+  else h_out("ok sets=%d rows1=%d rows2=%d sum=%.0f txt=-", nsets, rows[0], rows[1], sum);
 }
 
 static void h_op(void)
